@@ -217,6 +217,7 @@ def op_table(npool):
         'arch_off': st.just(['arch_off']),
         'arch_on': st.just(['arch_on']),
         'arch_query': st.just(['arch_query']),
+        'akeys': st.just(['akeys']),
         'attach': st.just(['attach']),
         'lookup': st.tuples(st.just('lookup'), idx, form).map(list),
         'key': st.tuples(st.just('key'), idx, form).map(list),
@@ -236,7 +237,7 @@ def op_lists(draw, weights, npool, min_ops, max_ops):
 
 
 DEFAULT_WEIGHTS = {'call': 12, 'hammer': 0, 'dump': 1, 'load': 1, 'dumpk': 1, 'loadk': 1, 'clear': 1,
-                   'clearkeep': 1, 'arch_off': 1, 'arch_on': 1, 'arch_query': 0, 'lookup': 0, 'key': 0, 'awrite': 0, 'burst': 0, 'sweep': 0, 'attach': 0, 'redecorate': 0, 'reopen': 0, 'fork': 0, 'dumpreopen': 0}
+                   'clearkeep': 1, 'arch_off': 1, 'arch_on': 1, 'arch_query': 0, 'akeys': 0, 'lookup': 0, 'key': 0, 'awrite': 0, 'burst': 0, 'sweep': 0, 'attach': 0, 'redecorate': 0, 'reopen': 0, 'fork': 0, 'dumpreopen': 0}
 
 
 @st.composite
@@ -244,7 +245,7 @@ def cache_cases(draw, modules=('std', 'safe'), algos=tuple(H.ALGOS), maxsizes=(1
                 backends=tuple(H.BACKENDS_ALL), weights=None, max_ops=30, min_ops=1, pool=(3, 7),
                 purges=(False, True), shapes=None, allow_default_keymap=True, ms_pos=(False,),
                 rich_args=False, info_preserving_only=True, mem_weight=0, extra=None, unhashable_ok=False, prefill_pct=0, raising_pct=0, attach_later_pct=0, confusable_pct=30,
-                tols=(None,), deeps=(False,), ignores=(None,), float_pct=0, relpath_pct=0):
+                tols=(None,), deeps=(False,), ignores=(None,), float_pct=0, relpath_pct=0, default_keymap_pct=17):
     w = dict(DEFAULT_WEIGHTS)
     w.update(weights or {})
     module = draw(st.sampled_from(modules))
@@ -258,8 +259,9 @@ def cache_cases(draw, modules=('std', 'safe'), algos=tuple(H.ALGOS), maxsizes=(1
     sig = draw(st.sampled_from(shapes or SHAPES))
     has_va = bool(sig.get('varargs'))
     kms = keymap_specs_for(key_req, module, has_va, info_preserving_only, unhashable_ok=unhashable_ok)
-    use_default = allow_default_keymap and key_req in ('hashable', 'bindable', 'evalable') and not (has_va and info_preserving_only) \
-        and draw(st.integers(0, 5)) == 0
+    # (source-text directory archives import entries back by name 'K_<key>': the std default's int keys qualify, the safe default's text keys do not)
+    use_default = allow_default_keymap and (key_req in ('hashable', 'bindable', 'evalable') or (key_req == 'md5only' and module == 'std')) and not (has_va and info_preserving_only) \
+        and draw(st.integers(0, 99)) < default_keymap_pct
     if module == 'safe' and use_default and key_req == 'bindable':
         use_default = True
     if use_default:
